@@ -50,7 +50,7 @@ def refine_len(st, leaves):
     return st
 
 
-def length_analysis(ctx, u, on_site):
+def length_analysis(ctx, u, on_site, capture_calls=None, captured=None):
     """list-length-set abstract interpretation of unit u; on_site(node, var, lengths, need, what)"""
     P = ctx.P
     g = ctx.cfg(u)
@@ -93,6 +93,8 @@ def length_analysis(ctx, u, on_site):
             f = c.func
             if isinstance(f, ast.Attribute) and isinstance(f.value, ast.Name) and f.value.id in st:
                 v = f.value.id
+                if report and capture_calls is not None and id(c) in capture_calls:
+                    captured[id(c)] = st[v]
                 if f.attr == 'append':
                     st[v] = frozenset(min(x + 1, 3) for x in st[v])
                 elif f.attr == 'pop':
@@ -138,6 +140,26 @@ def length_analysis(ctx, u, on_site):
     for n in g.nodes:
         if n.id in IN:
             transfer(n, IN[n.id], True)
+
+
+def _lengths_at(ctx, u, calls):
+    """{id(call): length set of the receiver list when the call is evaluated}"""
+    out = {}
+    ids = {id(c): c for c in calls}
+    from ..cfg import solve_forward
+    P = ctx.P
+    g = ctx.cfg(u)
+    # reuse the transfer/refine of length_analysis through a capturing hook: replay the analysis and read the IN state
+    captured = {}
+
+    def hook(node, var, lens, need, what):
+        captured[id(node)] = lens
+    # length_analysis reports pops and subscripts; for appends we recompute the IN state of the statement
+    length_analysis(ctx, u, hook, capture_calls=ids, captured=captured)
+    for k in ids:
+        if k in captured:
+            out[k] = captured[k]
+    return out
 
 
 @rule('R-VARIATIONS')
@@ -241,6 +263,44 @@ def variations(ctx, rr):
             if idx != '-1':
                 rr.fail(ctx.finding('R-VARIATIONS', lv, t, 'the www test looks at host stem [%s], not at the trailing one' % idx))
     rr.require(n_www, 1, 'www tests in lru_variations')
+    # a single host stem never gets a www added or removed (its www form would not expand back): checked with the length sets
+    def on_www(node, var, lens, need, what):
+        pass
+    sites = []
+
+    def collect(node, var, lens, need, what, u=lv):
+        if what == 'pop' and var in host_lists:
+            sites.append((node, var, lens, 'pop'))
+    length_analysis(ctx, lv, collect)
+    # appends: rerun with a hook on append
+    from ..cfg import solve_forward as _sf
+    app_sites = []
+    for c in P.own(lv, ast.Call):
+        if isinstance(c.func, ast.Attribute) and c.func.attr == 'append' and isinstance(c.func.value, ast.Name) and c.func.value.id in host_lists:
+            app_sites.append(c)
+    lens_at = _lengths_at(ctx, lv, app_sites + [s_[0] for s_ in sites])
+    for c in app_sites + [s_[0] for s_ in sites]:
+        ls = lens_at.get(id(c))
+        if ls is None:
+            continue
+        okl = all(x >= 2 for x in ls)
+        rr.ob(ctx.where(lv, c), 'the www stem is added/removed only when there are at least two host stems (lengths here: %s)' % sorted(ls), ok=okl)
+        if not okl:
+            rr.fail(ctx.finding('R-VARIATIONS', lv, c, 'a www stem is added to / removed from a host list that can hold a single host (lengths %s): the www form of a single-host prefix '
+                                'does not expand back to it, so the class is not closed' % sorted(ls)))
+    # the www variations are the LRU (and its scheme variation) with the host section substituted in place
+    res_names = [r.value.id for r in P.own(lv, ast.Return) if isinstance(r.value, ast.Name)]
+    for c in P.own(lv, ast.Call):
+        if isinstance(c.func, ast.Attribute) and c.func.attr == 'append' and isinstance(c.func.value, ast.Name) and c.func.value.id in res_names and c.args:
+            a = c.args[0]
+            if isinstance(a, ast.Name):
+                continue        # the scheme variation itself
+            oks = isinstance(a, ast.Call) and isinstance(a.func, ast.Attribute) and a.func.attr == 'replace' and len(a.args) == 3 and ast.unparse(a.args[2]) == '1' \
+                and isinstance(a.func.value, ast.Name)
+            rr.ob(ctx.where(lv, c), 'www variation `%s` substitutes the host section in place' % ast.unparse(a)[:60], ok=oks)
+            if not oks:
+                rr.fail(ctx.finding('R-VARIATIONS', lv, c, 'a variation is built as `%s` instead of substituting the host section of the LRU in place: stems between the scheme and the '
+                                    'hosts (a port) or after them can be lost or rewritten' % ast.unparse(a)[:70]))
     # ---- (first) the result list starts with the input and is only appended to
     res = set()
     for r in P.own(lv, ast.Return):
